@@ -3,7 +3,7 @@
 # usage: tools/seed_process.sh <PROP> <mN> "<checks to run>"
 prop=$1; m=$2; checks=$3
 wt=/tmp/wt/$prop
-dest=/verif/seeded/$prop-$m
+dest=/verif/seeded/$prop-${SEED_PREFIX:-}$m
 mkdir -p $dest
 conf=$(/verif/tools/seed_confirm.sh $wt $m 2>&1)
 echo "$conf" | grep -v "^WARNING" | tr '\n' ' '; echo
